@@ -235,7 +235,9 @@ func (pkt *Packet) authenticate(b []byte, key []byte) error {
 	}
 
 	pos := 0
-	for len(decrytedBuf)-pos >= 28 {
+	// encrypted extension fields are exempt from the minimum length of 28
+	// bytes that holds for the last unencrypted one (RFC 8915, section 5.7)
+	for len(decrytedBuf)-pos >= 4 {
 		var eh extHdr
 		eh.unpack(decrytedBuf, pos)
 		if eh.Length < 4 {
